@@ -318,6 +318,7 @@ def twin_stream(tier, seed, nonrec, nonrec_meta, rec, rec_meta, vit, vit_meta, g
         for p in range(k_builds):
             if p == 0: path, style = rng.choice(["direct", "json", "roundtrip", "copy"]), "restart"
             elif p == 1: path, style = rng.choice(["direct", "json"]), rng.choice(["global", "implicit"])
+            elif p == 2: path, style = rng.choice(["direct", "direct", "copy"]), rng.choice(["shared", "shared_implicit"])   # identical objects in several rules
             else: path, style = combos[(start + 3 * p) % len(combos)]
             sr = configs[(made + p) % len(configs)]
             method = C01.METHODS[(made + p) % 3]
